@@ -291,7 +291,7 @@ func genC09(seed uint64, tier string, outdir string) *Report {
 	rep.Rule = "a case is one random history on a fresh chain; distinct by hash of the op list; non-trivial = at least one withdrawal accepted, one rejected and one deposit refunded"
 	nCases, length := 48, 70
 	if tier == "thorough" {
-		nCases, length = 400, 120
+		nCases, length = 240, 110
 	}
 	var texts []string
 	for k := 0; k < nCases; k++ {
